@@ -89,6 +89,7 @@ fn key_enc_opts(s: &Ident, rc: &Ident, e: Option<&[u8; 32]>, e_pub: Option<&[u8;
 pub fn run(rep: &'static Report) {
     let seed = rep.seed;
     rep.set_rule("E-GRID: all 16 ordered (sender, recipient) pairs x plaintexts x read partitions x payload keys with a fixed ephemeral key; all files that differ only in identities are compared pairwise (cleartext skeleton and length must be equal, length == 132 + 32*records + |P|), every file is scanned for each party's key in raw/hex/base64 (any phase, both alphabets)/keyring encoding and must parse completely into documented fields; all four (ephemeral, ephemeral_public) option combinations; password mode; CLI for every ordered pair of three long-named parties via -o and via stdout. distinct non-trivial = distinct files produced");
+    rep.rule_add("CLI: plaintext on stdin in 5 shapes x password source x output; 48-file ephemeral sequence; non-blocking stdout with 3 slow-reader profiles x 3 sizes x 2 modes.");
     rep.assume("identities from a seed-derived 4-key alphabet; names are >= 12 bytes so that a chance occurrence in ciphertext has probability < 2^-70");
     let ids = idents(seed);
     let e = derive32(seed, "c08-e");
